@@ -378,3 +378,48 @@ pub fn shape_strategy(nd: usize, max_axis: usize, max_total: usize, allow_zero: 
         })
         .boxed()
 }
+
+/// Deterministic expansion of a *generated* 64-bit seed into a stream (splitmix64). Long cases
+/// (thousands of elements) are built from a seed that proptest generates and shrinks; the
+/// expanded values are stored in the case, so replay never depends on this function.
+pub fn splitmix(seed: u64) -> impl FnMut() -> u64 {
+    let mut s = seed;
+    move || {
+        s = s.wrapping_add(0x9e37_79b9_7f4a_7c15);
+        let mut z = s;
+        z = (z ^ (z >> 30)).wrapping_mul(0xbf58_476d_1ce4_e5b9);
+        z = (z ^ (z >> 27)).wrapping_mul(0x94d0_49bb_1331_11eb);
+        z ^ (z >> 31)
+    }
+}
+
+/// Lengths at which blocked / chunked / thresholded code changes regime, up to `max`.
+pub fn regime_lengths(min: usize, max: usize) -> Vec<usize> {
+    let mut v = vec![];
+    for b in [64usize, 128, 256, 512, 1024, 2048, 4096, 8192, 16384] {
+        for k in 1..=3usize {
+            for d in [-1isize, 0, 1] {
+                let n = (b * k) as isize + d;
+                if n >= min as isize && n <= max as isize {
+                    v.push(n as usize);
+                }
+            }
+        }
+    }
+    for n in [1000usize, 2000, 3000, 5000, 9000, 10_000, 20_000] {
+        if n >= min && n <= max {
+            v.push(n);
+        }
+    }
+    v.sort_unstable();
+    v.dedup();
+    if v.is_empty() {
+        v.push(max);
+    }
+    v
+}
+
+/// A long length: half of the time one of `regime_lengths`, otherwise uniform in min..=max.
+pub fn long_len(min: usize, max: usize) -> BoxedStrategy<usize> {
+    prop_oneof![1 => proptest::sample::select(regime_lengths(min, max)), 1 => min..=max].boxed()
+}
